@@ -294,12 +294,18 @@ package sync
 //@   modifies nothing
 //@   ensures result1 != nil ==> result0 == nil
 //@   ensures result1 == nil ==> result0 != nil && fresh(result0) && bigval(result0) == finalityTag(b.string)
+// the topics a downloader filters its logs by are the keys of its appender map (map iteration is outside the subset:
+// the function is assumed to return them, topicsRef / topicsLen name its answer)
+//@ spec fn topicsRef(m LogAppenderMap) int
+//@ spec fn topicsLen(m LogAppenderMap) int
 //@ func (m LogAppenderMap) GetTopics (m)
 //@   trusted
 //@   modifies nothing
+//@   ensures ref(result) == topicsRef(m) && off(result) == 0 && len(result) == topicsLen(m)
 //@ func NewEVMDownloaderImplementation (syncerID, ethClient, blockFinality, waitForNewBlocksPeriod, appender, addressesToQuery, rh, finalizedBlockType)
 //@   props C05 C06
 //@   modifies nothing
+//@   ensures[filters-by-the-appenders-topics] appender != nil ==> ref(result.topicsToQuery) == topicsRef(appender) && off(result.topicsToQuery) == 0 && len(result.topicsToQuery) == topicsLen(appender)
 //@   ensures[fields-are-the-arguments] result != nil && fresh(result) && result.ethClient == ethClient && result.blockFinality == blockFinality && result.finalizedBlockType == finalizedBlockType && result.waitForNewBlocksPeriod == waitForNewBlocksPeriod && result.appender == appender && result.addressesToQuery == addressesToQuery && result.rh == rh
 //@ func NewEVMDownloader (syncerID, ethClient, syncBlockChunkSize, blockFinalityType, waitForNewBlocksPeriod, appender, addressesToQuery, rh, finalizedBlockType)
 //@   props C05 C06
